@@ -540,6 +540,27 @@ let op_kpksolve () : string =
   done;
   Printf.sprintf "legal=%d won=%d wrong=%d %s" !nlegal !nwin !nd (String.concat " " (List.rev !diffs))
 
+
+(* ---------- C20: time allocation; the extracted generic model instantiated with native binary64 ---------- *)
+let imp_table : float array ref = ref [||]
+let imp_native (x : float) : float = Float.max ((1. +. exp ((x -. 64.5) /. 6.85)) ** (-0.171)) 0.01
+let op_impset (args : string list) : string =
+  imp_table := Array.of_list (List.map float_of_string args); "ok " ^ string_of_int (Array.length !imp_table)
+let op_imptable (args : string list) : string =
+  match args with
+  | [n] -> String.concat " " (List.init (int_of_string n) (fun x -> Printf.sprintf "%h" (imp_native (float_of_int x))))
+  | _ -> "BAD-ARGS"
+let op_time (args : string list) : string =
+  match List.map int_of_string args with
+  | t :: inc :: mtg :: ply :: _ ->
+    let imp (x : M.z) : float =
+      let i = int_of_z x in
+      if i >= 0 && i < Array.length !imp_table then (!imp_table).(i) else imp_native (float_of_int i) in
+    let r = M.calculate (fun z -> float_of_int (int_of_z z)) ( *. ) ( +. ) ( /. ) (fun f -> z_of_int (int_of_float f)) imp 0.0 0.7
+        (z_of_int t) (z_of_int inc) (z_of_int mtg) (z_of_int ply) in
+    string_of_int (int_of_z r)
+  | _ -> "BAD-ARGS"
+
 (* ---------- model-driven random games ---------- *)
 
 (* playout <seed> <plies> <bias> <fen> : random legal game; bias (0..9) favours special moves *)
@@ -596,6 +617,9 @@ let dispatch (line : string) : string =
      | "g_key" -> run_key_game (rest_after line 1)
      | "pghash" -> op_pghash (rest_after line 1)
      | "kpkraw" -> op_kpkraw args
+     | "impset" -> op_impset args
+     | "imptable" -> op_imptable args
+     | "time" -> op_time args
      | "kpkeval" -> op_kpkeval args
      | "kpksolve" -> op_kpksolve ()
      | "pghash_alg" -> op_pghash_alg (rest_after line 1)
